@@ -44,12 +44,26 @@ def run(ctx):
                       {"family": "correlate", "scenario": meta[t]["scenario"], "choices": meta[t]["choices"], "trace": trs[t],
                        "rejected_line": hw, "rejected_event": ev[0] if ev else None})
     nself = selftest(ctx, tr) if not ctx.replay and not rej else 0
+    # the extension helpers' own rendezvous (delivery receipts, MUC join/leave): their families' specs
+    # and drivers, reported under this property
+    parts = {}
+    if not ctx.replay:
+        import muccommon
+        parts.update(muccommon.run_c06_receipts_part(ctx))
+        parts.update(muccommon.run_c06_muc_part(ctx))
+        import registry
+        if "C15" in registry.CHECKS:      # the IBB family is integrated (its hooks are in /repo)
+            import ibbcommon
+            parts.update(ibbcommon.run_c06_part(ctx))
+        else:
+            ctx.notes.append("IBB part of C06 not integrated yet")
     ctx.write_evidence("model_checking", {
         "states": mc.distinct, "transitions": mc.generated,
         "liveness_states": lv1.distinct + lv2.distinct,
         "traces_validated_against_impl": summ["traces"], "schedules_run": summ["evaluations"],
         "trace_events": summ["events"], "trace_states": r.distinct, "rejected": len(rej),
         "binding_selftest_mutants_rejected": nself,
+        "extension_helpers": parts,
         "samples": summ["samples"][:2],
         "rule": "scenarios = 1-3 concurrent callers (SendIQ, SendIQElement, EncodeIQElement, UnmarshalIQ, SendMessage, SendPresence) on a served session, peer scripts with own / duplicate / unknown-id / wrong-kind / non-response stanzas, scheduler-owned cancellations, optional concurrent Close (failed sends); schedules = depth-first enumeration at gate granularity with a pre-emption bound, capped per scenario; a trace is distinct if its event sequence differs",
     }, assumptions=["gate granularity (verifYield hooks at lookup/hand-off/wait, transport reads/writes, Go blocking primitives)",
